@@ -165,7 +165,7 @@ static std::string mutate(std::string f, int kind, int pos, int val) {
     size_t p = (size_t)pos % f.size();
     auto put32 = [&](size_t at, uint32_t v) { if(at + 4 <= f.size()) { f[at] = (char)(v >> 24); f[at + 1] = (char)(v >> 16); f[at + 2] = (char)(v >> 8); f[at + 3] = (char)v; } };
     static const uint32_t lens[] = {0, 1, 0x7fffffffu, 0xffffffffu, 0xfffffff0u, 65536, 0x00010000};
-    switch(kind % 12) {
+    switch(kind % 14) {
     case 0: f.resize(p); break;                                            // truncate anywhere
     case 1: { size_t at = f.find("MTrk"); if(at != std::string::npos) put32(at + 4, lens[(size_t)val % 7]); else put32(p, lens[(size_t)val % 7]); break; }  // track length field
     case 2: { size_t at = f.find("MThd"); if(at != std::string::npos && at + 14 <= f.size()) { f[at + 12] = (char)(val >> 8 & (val & 1 ? 0 : 0xFF)); f[at + 13] = (char)(val & 2 ? 0 : val); } break; } // division (0 included)
@@ -177,6 +177,20 @@ static std::string mutate(std::string f, int kind, int pos, int val) {
     case 8: { if(f.size() > 8 && !memcmp(f.data(), "MUS\x1a", 4)) { f[4 + (val & 7)] = (char)(val >> 3); } else f.erase(p, (size_t)val % 16 + 1); break; } // MUS header fields / delete a slice
     case 9: { size_t at = f.find("MThd"); if(at != std::string::npos && at + 12 <= f.size()) { f[at + 10] = (char)(val >> 8); f[at + 11] = (char)val; } break; } // track count
     case 10: f.append((size_t)val % 32, (char)(val >> 5)); break;           // trailing bytes
+    case 11: { // declared length of a meta event (FF tt ll): 0, 1, 2, longer than the data, multi-byte
+        std::vector<size_t> at; for(size_t i = 0; i + 2 < f.size(); i++) if((unsigned char)f[i] == 0xFF && (unsigned char)f[i + 1] < 0x80) at.push_back(i);
+        if(!at.empty()) { size_t i = at[p % at.size()]; static const int ln[] = {0, 1, 2, 4, 0x7F, 0x81}; f[i + 2] = (char)ln[(size_t)val % 6]; if((val >> 4) & 1) f[i + 1] = (char)0x51; }
+        break; }
+    case 12: { // XMI: a branch table (RBRN) of n entries, ids repeating, in front of the first EVNT chunk
+        size_t at = f.find("EVNT"); if(at == std::string::npos) break;
+        static const int ns[] = {1, 2, 127, 128, 129, 200, 1000, 4000}; int n = ns[(size_t)val % 8];
+        std::string body; body += (char)(n & 255); body += (char)(n >> 8);
+        for(int i = 0; i < n; i++) { body += (char)((i * 7 + (val >> 3)) & ((val & 0x100) ? 0xFF : 0x7F)); body += (char)0; body += (char)(i & 31); body += (char)0; body += (char)0; body += (char)0; }
+        std::string ch("RBRN", 4); uint32_t l = (uint32_t)body.size(); ch += (char)(l >> 24); ch += (char)(l >> 16); ch += (char)(l >> 8); ch += (char)l; ch += body; if(body.size() & 1) ch += (char)0;
+        f.insert(at, ch);
+        // keep the enclosing FORM/CAT lengths plausible: grow every IFF length field in front of the insertion point
+        for(const char *tag : {"CAT ", "FORM"}) { size_t q = 0; while((q = f.find(tag, q)) != std::string::npos && q < at) { if(q + 8 <= f.size()) { uint32_t v = ((uint32_t)(unsigned char)f[q + 4] << 24) | ((uint32_t)(unsigned char)f[q + 5] << 16) | ((uint32_t)(unsigned char)f[q + 6] << 8) | (unsigned char)f[q + 7]; if(q + 8 + v >= at) put32(q + 4, v + (uint32_t)ch.size()); } q += 4; } }
+        break; }
     default: for(int i = 0; i < 4; i++) f[(p + (size_t)i * 7919) % f.size()] ^= (char)(1 << ((val + i) & 7)); break; // bit flips
     }
     if(f.size() > 65536) f.resize(65536);
@@ -196,7 +210,7 @@ int main(int argc, char **argv) {
         if(which >= (int)base.size()) { SSong s = *genSong(); for(STrack &t : s.tracks) for(SEv &e : t.ev) if(e.delta > 5000) e.delta = e.delta % 500; cs.file = smf_write(s); if(which == (int)base.size() + 1) cs.file = wrap_rmi(cs.file); }
         else cs.file = base[(size_t)which];
         int nm = *rng<int>(0, 4);
-        for(int i = 0; i < nm; i++) cs.file = mutate(cs.file, *rng<int>(0, 11), *rng<int>(0, 70000), *rng<int>(0, 65535));
+        for(int i = 0; i < nm; i++) cs.file = mutate(cs.file, *rng<int>(0, 13), *rng<int>(0, 70000), *rng<int>(0, 65535));
         cs.song_before = *rc::gen::element(-1000, -1000, 0, 1, 2, -1, -2, 5); cs.loop = *rng<int>(0, 1); cs.loop_count = *rng<int>(-1, 3); cs.tempo_sel = *rng<int>(0, 3);
         cs.ops = *rc::gen::resize(12, rc::gen::container<std::vector<FOp>>(rc::gen::map(rc::gen::tuple(rng<int>(0, K_NK - 1), rng<int>(0, 65535), rng<int>(0, 255)), [](std::tuple<int, int, int> t) { return FOp{std::get<0>(t), std::get<1>(t), std::get<2>(t)}; })));
         std::string s = ser(cs);
